@@ -121,6 +121,16 @@ Theorem C05_src_frame_layout : forall m o, in_i32 (o + 8) = true -> in_i32 o = t
 Proof. exact src_fd_offsets_layout. Qed.
 Print Assumptions C05_src_frame_layout.
 
+(* the two frame checks of frame_descriptor.rs *)
+Theorem C05_src_frame_checks : forall m len,
+  src_fd_check_header_length m len =
+    Ok (if len =? HDR then ROk 0 else RErr "IllegalStateError::FrameHeaderLengthMustBeEqualToDataOffset" [GenConsts.DFH_LENGTH; len]) /\
+  src_fd_check_max_frame_length m len =
+    Ok (if Z.land len 31 =? 0 then ROk 0
+        else RErr "IllegalStateError::MaxFrameLengthMustBeMultipleOfFrameAlignment" [GenConsts.FRAME_ALIGNMENT; len]).
+Proof. intros. exact (conj (src_fd_check_header_length_eq m len) (src_fd_check_max_frame_length_eq m len)). Qed.
+Print Assumptions C05_src_frame_checks.
+
 Theorem C05_src_scan_outcome_roundtrip : forall m pad av, in_i32 pad = true -> in_i32 av = true -> 0 <= av ->
   (s <- src_scan_outcome m pad av ;; src_scan_available m s) = Ok av /\
   (s <- src_scan_outcome m pad av ;; src_scan_padding m s) = Ok pad.
